@@ -1102,6 +1102,44 @@ mod srvlevel {
         Ok((srv, addr))
     }
 
+    /// Run a `Server` on a thread (and runtime) of its own: `handle_cmd(Stop)` joins the accept thread with a
+    /// *blocking* call, so a server whose accept thread never exits blocks its runtime for ever — it must not
+    /// be the scenario's. Returns the handle, the address and a receiver that resolves when the `Server`
+    /// future has resolved. A server that never resolves leaks its thread; the process exits all the same.
+    fn host_server<F>(build: F) -> std::io::Result<(actix_server::ServerHandle, std::net::SocketAddr, tokio::sync::oneshot::Receiver<()>)>
+    where
+        F: FnOnce() -> std::io::Result<(actix_server::Server, std::net::SocketAddr)> + Send + 'static,
+    {
+        let (tx, rx) = std::sync::mpsc::channel();
+        let (dtx, drx) = tokio::sync::oneshot::channel();
+        std::thread::spawn(move || {
+            let rt = tokio::runtime::Builder::new_current_thread().enable_all().build().unwrap();
+            rt.block_on(async move {
+                match build() {
+                    Ok((srv, addr)) => {
+                        let _ = tx.send(Ok((srv.handle(), addr)));
+                        let _ = srv.await;
+                        let _ = dtx.send(());
+                    }
+                    Err(e) => {
+                        let _ = tx.send(Err(e));
+                    }
+                }
+            });
+        });
+        match rx.recv_timeout(Duration::from_secs(20)) {
+            Ok(Ok((h, a))) => Ok((h, a, drx)),
+            Ok(Err(e)) => Err(e),
+            Err(_) => Err(std::io::Error::new(std::io::ErrorKind::TimedOut, "server did not start")),
+        }
+    }
+
+    /// `stop(false)` at the end of a scenario, bounded (a broken server may never answer)
+    async fn stop_bounded(handle: &actix_server::ServerHandle, done: tokio::sync::oneshot::Receiver<()>) {
+        let _ = tokio::time::timeout(Duration::from_secs(5), handle.stop(false)).await;
+        let _ = tokio::time::timeout(Duration::from_secs(5), done).await;
+    }
+
     /// one instance of a server-level scenario. Everything that is judged is judged one-sidedly, so that a
     /// slow / loaded machine can only make a run *less* able to show a violation, never produce one:
     /// * "early": the stop future resolved, or the server closed a held connection, *before* the property
@@ -1163,8 +1201,9 @@ mod srvlevel {
         };
         // ports may be scarce when many checks run at once: retry
         let mut tries = 0;
-        let (srv, addr) = loop {
-            match server(sc.workers, sc.timeout, false, served.clone(), nonce) {
+        let (handle, addr, mut srv_done) = loop {
+            let (w, t, sv) = (sc.workers, sc.timeout, served.clone());
+            match host_server(move || server(w, t, false, sv, nonce)) {
                 Ok(x) => break x,
                 Err(e) if is_port_error(&e) && tries < 40 => {
                     tries += 1;
@@ -1176,8 +1215,6 @@ mod srvlevel {
                 }
             }
         };
-        let handle = srv.handle();
-        let srv_task = tokio::spawn(srv);
         // every client proves that its connection is being served (echo) before anything else happens
         let mut clients = vec![];
         for i in 0..sc.holds.len() {
@@ -1191,7 +1228,7 @@ mod srvlevel {
                     }
                     Err(e) => {
                         out.setup = Some(if is_port_error(&e) { "ports".into() } else { format!("error connect {e}") });
-                        handle.stop(false).await;
+                        stop_bounded(&handle, srv_done).await;
                         return out;
                     }
                 }
@@ -1210,7 +1247,7 @@ mod srvlevel {
             }
             if !ok {
                 out.setup = Some("error echo".into());
-                handle.stop(false).await;
+                stop_bounded(&handle, srv_done).await;
                 return out;
             }
             clients.push(c);
@@ -1268,7 +1305,7 @@ mod srvlevel {
         let t_ms = sc.timeout as u128 * 1000;
         let bound = ((t_ms + 999) / 1000 + 1) * 1000;
         let cap = Duration::from_millis((bound + 5500) as u64);
-        let t_server = match tokio::time::timeout(cap, srv_task).await {
+        let t_server = match tokio::time::timeout(cap, &mut srv_done).await {
             Ok(_) => Some(t0.elapsed().as_millis()),
             Err(_) => None,
         };
@@ -1650,27 +1687,29 @@ mod srvlevel {
         let mut fails = vec![];
         let obs = rt.block_on(async {
             let shared = Arc::new(GateShared::default());
-            let lst = match std::net::TcpListener::bind("127.0.0.1:0") {
-                Ok(l) => l,
+            let sh = shared.clone();
+            let (handle, addr, srv_done) = match host_server(move || {
+                let lst = std::net::TcpListener::bind("127.0.0.1:0")?;
+                let addr = lst.local_addr()?;
+                let srv = actix_server::Server::build()
+                    .workers(1)
+                    .disable_signals()
+                    .listen("gated", lst, move || {
+                        let sh = sh.clone();
+                        actix_service::fn_factory(move || {
+                            let sh = sh.clone();
+                            async move {
+                                let id = sh.created.fetch_add(1, Ordering::SeqCst) + 1;
+                                Ok::<_, ()>(GatedService { id, shared: sh })
+                            }
+                        })
+                    })?
+                    .run();
+                Ok((srv, addr))
+            }) {
+                Ok(x) => x,
                 Err(e) => return if is_port_error(&e) { "skipped".to_string() } else { format!("setup-error {e}") },
             };
-            let addr = lst.local_addr().unwrap();
-            let sh = shared.clone();
-            let srv = match actix_server::Server::build().workers(1).disable_signals().listen("gated", lst, move || {
-                let sh = sh.clone();
-                actix_service::fn_factory(move || {
-                    let sh = sh.clone();
-                    async move {
-                        let id = sh.created.fetch_add(1, Ordering::SeqCst) + 1;
-                        Ok::<_, ()>(GatedService { id, shared: sh })
-                    }
-                })
-            }) {
-                Ok(b) => b.run(),
-                Err(e) => return format!("setup-error {e}"),
-            };
-            let handle = srv.handle();
-            let srv_task = tokio::spawn(srv);
             // first connection: served by instance 1
             let a1 = ask(addr, Duration::from_secs(10)).await;
             // wait until the worker has swept again after that call and gone idle: two further readiness polls
@@ -1704,8 +1743,7 @@ mod srvlevel {
             }
             let a2 = second.await.ok().flatten();
             let calls = shared.calls.lock().unwrap().clone();
-            handle.stop(false).await;
-            let _ = tokio::time::timeout(Duration::from_secs(5), srv_task).await;
+            stop_bounded(&handle, srv_done).await;
             // ---- the statement of C07 on what the service itself recorded
             for (k, (id, gate)) in calls.iter().enumerate() {
                 if *gate != G_READY {
@@ -1766,12 +1804,23 @@ mod srvlevel {
             }
             let gen = self.gen;
             Box::pin(async move {
+                use tokio::io::AsyncReadExt;
                 let _ = stream.write_all(&[b'0' + gen as u8]).await;
-                let _ = stream.shutdown().await;
+                // in progress until the client goes away
+                let mut buf = [0u8; 16];
+                loop {
+                    match stream.read(&mut buf).await {
+                        Ok(0) | Err(_) => break,
+                        Ok(_) => {}
+                    }
+                }
                 Ok(())
             })
         }
     }
+
+    /// `shutdown_timeout` (s) of the `fault` scenarios' server
+    const STOP_T: u64 = 2;
 
     impl Drop for FaultySvc {
         fn drop(&mut self) {
@@ -1785,6 +1834,11 @@ mod srvlevel {
     fn run_fault(line: &str) -> (String, String, Vec<String>) {
         let ws: Vec<&str> = line.split_whitespace().collect();
         // delay between the kill and the two connections made inside the teardown window (ms)
+        let with_stop = match kv(&ws, "stop") {
+            None => false,
+            Some("1") => true,
+            _ => return (line.to_string(), "bad-op".into(), vec![]),
+        };
         let gap = match kv(&ws, "gap") {
             None => 150u64,
             Some(g) => match super::num(g) {
@@ -1796,27 +1850,30 @@ mod srvlevel {
         let mut fails = vec![];
         let obs = rt.block_on(async {
             let shared = Arc::new(FaultShared { instances: AtomicUsize::new(0), kill_next: std::sync::atomic::AtomicBool::new(false) });
-            let lst = match std::net::TcpListener::bind("127.0.0.1:0") {
-                Ok(l) => l,
+            let sh = shared.clone();
+            let (handle, addr, mut srv_done) = match host_server(move || {
+                let lst = std::net::TcpListener::bind("127.0.0.1:0")?;
+                let addr = lst.local_addr()?;
+                let srv = actix_server::Server::build()
+                    .workers(2)
+                    .shutdown_timeout(STOP_T)
+                    .disable_signals()
+                    .listen("faulty", lst, move || {
+                        let sh = sh.clone();
+                        actix_service::fn_factory(move || {
+                            let sh = sh.clone();
+                            async move {
+                                let gen = sh.instances.fetch_add(1, Ordering::SeqCst) + 1;
+                                Ok::<_, ()>(FaultySvc { gen, killed: std::cell::Cell::new(false), shared: sh })
+                            }
+                        })
+                    })?
+                    .run();
+                Ok((srv, addr))
+            }) {
+                Ok(x) => x,
                 Err(e) => return if is_port_error(&e) { "skipped".to_string() } else { format!("setup-error {e}") },
             };
-            let addr = lst.local_addr().unwrap();
-            let sh = shared.clone();
-            let srv = match actix_server::Server::build().workers(2).disable_signals().listen("faulty", lst, move || {
-                let sh = sh.clone();
-                actix_service::fn_factory(move || {
-                    let sh = sh.clone();
-                    async move {
-                        let gen = sh.instances.fetch_add(1, Ordering::SeqCst) + 1;
-                        Ok::<_, ()>(FaultySvc { gen, killed: std::cell::Cell::new(false), shared: sh })
-                    }
-                })
-            }) {
-                Ok(b) => b.run(),
-                Err(e) => return format!("setup-error {e}"),
-            };
-            let handle = srv.handle();
-            let srv_task = tokio::spawn(srv);
             let w = Duration::from_secs(8);
             let show = |x: Option<u8>| x.map_or('-', |b| b as char);
             let mut answers = vec![];
@@ -1843,8 +1900,71 @@ mod srvlevel {
             for _ in 0..4 {
                 later.push(ask(addr, w).await);
             }
-            handle.stop(false).await;
-            let _ = tokio::time::timeout(Duration::from_secs(8), srv_task).await;
+            // `stop=1`: a connection is held open on the REPLACEMENT worker, then a graceful stop: it has to wait for it
+            let mut stop_obs = String::new();
+            let mut stop_fails: Vec<String> = vec![];
+            if with_stop && replaced {
+                use tokio::io::AsyncReadExt;
+                let mut held: Option<(tokio::net::TcpStream, u8)> = None;
+                for _ in 0..6 {
+                    if let Ok(mut c) = tokio::net::TcpStream::connect(addr).await {
+                        let _ = socket2::SockRef::from(&c).set_linger(Some(Duration::ZERO));
+                        let mut b = [0u8; 1];
+                        if let Ok(Ok(_)) = tokio::time::timeout(w, c.read_exact(&mut b)).await {
+                            if b[0] >= b'3' {
+                                held = Some((c, b[0]));
+                                break;
+                            }
+                        }
+                    }
+                }
+                match held {
+                    None => stop_obs = " stop=no-replacement-connection".into(),
+                    Some((mut c, inst)) => {
+                        tokio::time::sleep(Duration::from_millis(100)).await; // W1: let the accept thread count it
+                        let t0 = Instant::now();
+                        let stop_fut = handle.stop(true);
+                        let watch = async {
+                            let mut b = [0u8; 8];
+                            loop {
+                                match c.read(&mut b).await {
+                                    Ok(0) | Err(_) => return t0.elapsed().as_millis(),
+                                    Ok(_) => {}
+                                }
+                            }
+                        };
+                        let cap = Duration::from_millis(STOP_T * 1000 + 7000);
+                        let (t_stop, t_closed) = tokio::join!(
+                            async { tokio::time::timeout(cap, stop_fut).await.ok().map(|_| t0.elapsed().as_millis()) },
+                            async { tokio::time::timeout(cap, watch).await.ok() }
+                        );
+                        let need = STOP_T as u128 * 1000;
+                        let mut early = false;
+                        if let Some(ms) = t_stop {
+                            if ms + 60 < need {
+                                early = true;
+                                stop_fails.push(format!("[C06,C08] after worker 0 was replaced, a graceful stop completed after {ms} ms although a connection was in progress on the replacement worker (instance {}) and shutdown_timeout is {need} ms: the server did not wait for the replacement worker", inst as char));
+                            }
+                        } else {
+                            stop_fails.push("[C06] the stop() future did not resolve within its bound + 5 s".into());
+                        }
+                        if let Some(ms) = t_closed {
+                            if ms + 60 < need {
+                                early = true;
+                                stop_fails.push(format!("[C06,C08] the connection in progress on the replacement worker was closed by the server {ms} ms into a graceful shutdown (shutdown_timeout {need} ms)"));
+                            }
+                        }
+                        stop_obs = format!(" stop={} early={}", if t_stop.is_some() { "resolved" } else { "never" }, early as u8);
+                        let _ = tokio::time::timeout(Duration::from_secs(5), &mut srv_done).await;
+                    }
+                }
+            } else if with_stop {
+                stop_obs = " stop=no-replacement".into();
+            }
+            if !with_stop {
+                stop_bounded(&handle, srv_done).await;
+            }
+            fails.extend(stop_fails);
             // ---- C08 / C01: a connection accepted after the fault is served by a live worker
             for (k, r) in [r1, r2].iter().enumerate() {
                 if r.is_none() {
@@ -1863,7 +1983,7 @@ mod srvlevel {
                 fails.push("[C08] the faulted worker was not replaced within 12 s".into());
             }
             format!(
-                "before={}{} killed={} window={}{} replaced={} later-all-served={}",
+                "before={}{} killed={} window={}{} replaced={} later-all-served={}{stop_obs}",
                 show(answers[0]),
                 show(answers[1]),
                 show(killed),
@@ -2304,6 +2424,8 @@ mod gen {
             for (k, g) in gaps.iter().enumerate() {
                 writeln!(w, "fault f{k} gap={g}").unwrap();
             }
+            // … and a graceful stop with a connection in progress on the replacement worker
+            writeln!(w, "fault fs stop=1").unwrap();
             writeln!(w, "fault bad gap=x").unwrap();
             w.flush().unwrap();
             return;
@@ -2409,6 +2531,12 @@ mod gen {
                 writeln!(w, "srv s{k} {rest}").unwrap();
                 k += 1;
             };
+            // a worker faults and is replaced; a connection is in progress on the REPLACEMENT; graceful stop must wait for it
+            writeln!(w, "fault fs0 stop=1").unwrap();
+            if thorough {
+                writeln!(w, "fault fs1 gap=600 stop=1").unwrap();
+                writeln!(w, "fault fs2 gap=50 stop=1").unwrap();
+            }
             // F7: graceful stop vs. accept-thread exit (needs a preempted server thread: repeated under CPU pressure)
             srv(&mut *w, "workers=2 timeout=2 mode=g holds=n,n reps=48 burn=12");
             srv(&mut *w, "workers=1 timeout=1 mode=g holds=-");
